@@ -161,6 +161,7 @@ func (b *BitSet) ClearRange(start, end int) {
 	i2 := end >> addressBitsPerWord
 	if i2 > maximum {
 		i2 = maximum
+		end = (i2+1)*dataBitsPerWord - 1
 	}
 	j := bitIndexForMask(wordMask(start))
 	for i := i1; i <= i2; i++ {
